@@ -800,7 +800,7 @@ class StateEngine(object):
             if execution_failed or any(
                 "terminated" in r for r in all_branch_results.values()
             ):
-                self.check_pending_results(execution_arn)
+                self.check_pending_results(execution_arn, execution_ended=True)
             else:
                 del self.branch_metadata[execution_arn]
 
@@ -992,16 +992,26 @@ class StateEngine(object):
                     self.event_dispatcher.acknowledge(event_id)
                 event_ids[i] = None
 
-    def check_pending_results(self, execution_arn):
+    def check_pending_results(self, execution_arn, execution_ended=False):
         """
         Check the branch_results for the current execution. If any of them are
         marked as terminated we cancel any pending Tasks, check whether any
         results for any outstanding messages are pending and if not we tidy up
         the branch_results.
+
+        execution_ended is True when called because the execution has ended,
+        in which case all of its branch_results are tidied up.
         """
 
         # Get the dict containing all the branch results for this execution
-        all_branch_results = self.branch_metadata[execution_arn].results
+        metadata = self.branch_metadata[execution_arn]
+        all_branch_results = metadata.results
+
+        # Remember that the execution has ended for the calls that may follow
+        # when events that are still in flight for it are dropped.
+        if execution_ended:
+            metadata.execution_ended = True
+        execution_ended = getattr(metadata, "execution_ended", False)
 
         #print("check_pending_results:")
         #print(all_branch_results)
@@ -1017,8 +1027,30 @@ class StateEngine(object):
         """
         has_terminated = any("terminated" in r for r in all_branch_results.values())
 
+        """
+        Only the Map/Parallel states that have been terminated, and the ones
+        nested inside their Branches, are tidied up. When the failure of a
+        nested Map/Parallel state was handled by its own Retrier or Catcher
+        the enclosing Map/Parallel state carries on: the Tasks and Waits of
+        its other Branches must not be cancelled, the events held for it not
+        acknowledged and the results collected for it so far not discarded.
+        """
+        def in_scope(results):
+            seen = set()
+            while results is not None and id(results) not in seen:
+                if "terminated" in results:
+                    return True
+                seen.add(id(results))
+                results = all_branch_results.get(results.get("parent"))
+            return False
+
+        if has_terminated and not execution_ended:
+            scoped = [(k, r) for k, r in all_branch_results.items() if in_scope(r)]
+        else:
+            scoped = list(all_branch_results.items())
+
         results_pending = False
-        for results in all_branch_results.values():
+        for key, results in scoped:
             if has_terminated:
                 result = results["results"]
                 event_ids = results["ids"]
@@ -1050,20 +1082,29 @@ class StateEngine(object):
                             that hasn't resulted in branch_results being
                             completed and cleared before continuing.
                             """
-                            if execution_arn not in self.branch_metadata:
+                            if (execution_arn not in self.branch_metadata or
+                                all_branch_results.get(key) is not results):
                                 return
                         else:
                             results_pending = True
 
-        for results in all_branch_results.values():
+        for key, results in scoped:
             event_ids = results["ids"]
             #print("Acknowledging event_ids:")
             #print(event_ids)
             self.acknowledge_event_list(event_ids)
 
         if not results_pending:
-            #print("No results pending, deleting self.branch_metadata[execution_arn]")
-            del self.branch_metadata[execution_arn]
+            for key, results in scoped:
+                if all_branch_results.get(key) is results:
+                    del all_branch_results[key]
+
+            # (Any enclosing Map/Parallel states may still be collecting.)
+            metadata = self.branch_metadata.get(execution_arn)
+            if (not all_branch_results and metadata is not None and
+                metadata.results is all_branch_results):
+                #print("No results pending, deleting self.branch_metadata[execution_arn]")
+                del self.branch_metadata[execution_arn]
 
             #print("self.branch_metadata length:")
             #print(len(self.branch_metadata))
@@ -1148,6 +1189,9 @@ class StateEngine(object):
                     "results": [PENDING]*length,
                     "ids": [None]*length,  # Unacknowledged messages
                     "state": [None]*length,
+                    # ID of the enclosing Map or Parallel state, if any
+                    "parent": (branch_info_stack[-2]["ID"]
+                               if len(branch_info_stack) > 1 else None),
                 }
 
             # Get the branch results for current execution and current state
@@ -3392,6 +3436,9 @@ class StateEngine(object):
                     "results": [PENDING]*length,
                     "ids": [None]*length,  # Unacknowledged messages
                     "state": [None]*length,
+                    # ID of the enclosing Map or Parallel state, if any
+                    "parent": (context_state["Branch"][-2]["ID"]
+                               if len(context_state["Branch"]) > 1 else None),
                 }
 
             """
@@ -3506,7 +3553,8 @@ class StateEngine(object):
                 time (end the execution again or run its Catcher again). Treat
                 it like the termination of that Branch and only tidy up.
                 """
-                if "terminated" in branch_results and error != "Task.Terminated":
+                already_terminated = "terminated" in branch_results
+                if already_terminated and error != "Task.Terminated":
                     error = "Task.Terminated"
                     cause = "Task has been Terminated"
 
@@ -3520,6 +3568,18 @@ class StateEngine(object):
                 """
                 if (previous_state_type == "Task" or previous_state_type == "Wait") and not held:
                     event_ids[index] = None
+
+                """
+                The failure of this Map or Parallel state has already been
+                dealt with (it was retried or caught, or it failed whatever
+                encloses it) when its first Branch failed. The termination of
+                another of its Branches is not a new failure: it must not be
+                handed on to an enclosing Map or Parallel state, which may be
+                carrying on with its other Branches. Only tidy up.
+                """
+                if already_terminated:
+                    self.check_pending_results(execution_arn)
+                    return
 
                 """
                 Reset event data back to the original Map or Parallel state
